@@ -192,6 +192,9 @@ def explore(ctx, tier, search=False):
                 ctx.count(("das", sx, qq), True, tag="das-independence")
     ctx.correspond("the four bodies of BaseHandler for one query", cases)
     ctx.correspond("Content-Length of the data response (calculate_size) vs contentLength", clen_cases)
+    # how often the generated cases lie in the domain of C06_payload_decodes(_source): typed values, no empty container
+    for out in common.run_driver([c[0].replace("h-clen", "h-xdrwf", 1) for c in clen_cases]):
+        ctx.tags["constrained dataset in C05's domain (Xdr.WF)=%s" % out] += 1
 
 
 def run(ctx):
